@@ -122,7 +122,58 @@ def case_history(rng: Any, ctx: Ctx, index: int) -> None:
             return
 
 
+def case_numpy_sum(rng: Any, ctx: Ctx, index: int) -> None:
+    """Sums of three or more terms applied to NumPy data (eagerly the arrays are used as they are, a jit converts them): terms
+    that return their input or a view of it (identity, half-wave plate, reshapes) first, scalars held as Python numbers after."""
+    from furax._base.core import HomothetyOperator, IdentityOperator
+    gen.begin_case(rng)
+    s = gen.rand_struct(rng)
+    firsts = [lambda: IdentityOperator(s)]
+    if gen.is_stokes(s):
+        from furax.operators.hwp import HWPOperator
+        firsts.append(lambda: HWPOperator(s))
+    terms = [gen.pick(rng, firsts)()]
+    for _ in range(int(rng.integers(2, 4))):
+        k = gen.pick(rng, ['py-scalar', 'py-scalar', 'diagonal', 'atom'])
+        t = None
+        if k == 'diagonal':
+            t = gen.a_diagonal(rng, s)
+        elif k == 'atom':
+            t = gen.atom(rng, s, only=('diagonal', 'homothety', 'hwp', 'identity'))
+        if t is None or not dense.struct_eq(t.out_structure(), s):
+            t = HomothetyOperator(float(gen.pick(rng, [2.0, -1.5, 0.5])), s)
+        terms.append(t)
+    op = terms[0]
+    for t in terms[1:]:
+        op = op + t
+    x = gen.rand_input(rng, s)
+    xn = jax.tree.map(lambda l: np.array(l), x)
+    keep = jax.tree.map(lambda l: l.copy(), xn)
+    LOG.case_key(f'numpy-sum:{dense.skeleton(op)}:{struct_kind(s)}', True)
+    LOG.count('C18.numpy-input', f'sum-of-{len(terms)}')
+    tol = max(dense.tol_for(op), 1e-6)
+    mon = 'C18.jit-closure'
+    LOG.evaluated(mon)
+    try:
+        ref = op.mv(x)
+        yn = op.mv(xn)
+        yj = jax.jit(lambda v: op.mv(v))(xn)
+    except Exception as exc:  # noqa: BLE001
+        LOG.violation('C18', mon, f'AdditionOperator/numpy-input/raises-{type(exc).__name__}', str(exc)[:160], expr=dense.describe(op))
+        return
+    for what, got in (('eager', yn), ('jit', yj)):
+        why = same_tree(ref, jax.tree.map(jnp.asarray, got), tol)
+        if why:
+            LOG.violation('C18', mon, f'AdditionOperator/numpy-input/{what}/{why.split(" ")[0]}',
+                          f'{what} result on NumPy inputs differs from the result on JAX arrays: {why}', expr=dense.describe(op))
+            return
+    if any(not np.array_equal(a, b) for a, b in zip(jax.tree.leaves(xn), jax.tree.leaves(keep))):
+        LOG.violation('C18', mon, 'AdditionOperator/numpy-input/input-modified', 'the operator modified the arrays it was given', expr=dense.describe(op))
+
+
 def case(rng: Any, ctx: Ctx, index: int) -> None:
+    if index % 10 == 7:
+        return case_numpy_sum(rng, ctx, index)
     if index % 10 == 8:
         return case_history(rng, ctx, index)
     if index % 10 == 9:
